@@ -1,0 +1,17 @@
+//go:build verif
+
+package verifapi
+
+import "github.com/tidwall/tile38/internal/server"
+
+// Hooks of the hook / channel life-cycle check (C03, C14, C19): the two parsers
+// the life-cycle model treats as oracles, called directly.
+
+// HookFenceParse returns the key of the fence command of a SETHOOK / SETCHAN,
+// or the error text cmdSetHook would return for it.
+func HookFenceParse(cmdlc string, vs []string) (key string, errText string) {
+	return server.VerifFenceParse(cmdlc, vs)
+}
+
+// HookEndpointValidate returns "" when the endpoint url is accepted.
+func HookEndpointValidate(url string) string { return server.VerifEndpointValidate(url) }
